@@ -13,13 +13,16 @@
      * the unimodal family is closed under affine maps of the data
        (density / a with the transformed parameters; normaliser scales by a);
      * the interval cost is >= 0 and vanishes exactly when the mass is f and the
-       end densities are equal.
+       end densities are equal; a cost <= e^2 puts the mass within e of f; a search
+       restricted to a region whose intervals hold at most M < f (inside the sample
+       range, or no wider than it) misses the fraction by >= f - M; the executable
+       judgement of a returned interval used by the check is sound.
    NOT proved (most of the property): accuracy of the Gauss-Chebyshev normaliser,
    of scipy quad (cdf) and of Simpson's rule on the moment grid; convergence of
    Nelder-Mead (fit, interval) and of minimize_scalar (mode); hence "integrates
    to one", "cdf = integral of pdf", "interval holds mass f", "mode is maximal"
    are decided only by the seeded metamorphic runs [R] of the check. *)
-From Coq Require Import Reals List QArith Qreals.
+From Coq Require Import Reals List QArith Qreals Lra.
 From IT Require Import Model.Moments Proofs.MomentsProofs RealModel.Unimodal Proofs.UnimodalProofs.
 Import ListNotations.
 
@@ -86,6 +89,73 @@ Theorem C19_hdi_cost_q_correct : forall w Pa Pb Fa Fb f : Q,
   Q2R (hdi_cost_q w Pa Pb Fa Fb f) = hdi_cost (Q2R w) (Q2R Pa) (Q2R Pb) (Q2R Fa) (Q2R Fb) (Q2R f).
 Proof. exact hdi_cost_q_correct. Qed.
 
+(* ---- the interval search (base.py interval): what the value of the cost guarantees and
+   what a restricted search can reach.  The optimiser itself is not modelled; these bound
+   the returned interval from the values the real code exposes. ---- *)
+Theorem C19_hdi_cost_small_bounds : forall w Pa Pb Fa Fb f e : R, (0 <= e)%R ->
+  (hdi_cost w Pa Pb Fa Fb f <= e * e)%R ->
+  (Rabs (Fb - Fa - f) <= e)%R /\ (Rabs (w * (Pa - Pb)) <= e)%R.
+Proof. exact hdi_cost_small_bounds. Qed.
+
+(* a search confined to intervals inside [lo, hi] holds at most F hi - F lo *)
+Theorem C19_confined_interval_mass : forall (F : R -> R) (lo hi c w : R), nondecreasing F ->
+  (lo <= c - w / 2)%R -> (c + w / 2 <= hi)%R -> (interval_mass F c w <= F hi - F lo)%R.
+Proof. exact confined_interval_mass. Qed.
+
+(* a search whose width is bounded by R (e.g. by the range of the sample) cannot return an
+   interval with the property for any fraction above the best window of width R: every
+   admissible candidate has cost >= (f - M)^2 and misses the fraction by >= f - M *)
+Theorem C19_width_limited_search_misses : forall (P F : R -> R) (wt f R0 M : R), nondecreasing F ->
+  (forall x, F (x + R0) - F x <= M)%R -> (M < f)%R ->
+  forall c w, (w <= R0)%R ->
+    ((f - M) * (f - M) <= interval_cost P F wt f c w)%R /\ (f - M <= f - interval_mass F c w)%R.
+Proof. exact width_limited_search_misses. Qed.
+
+Theorem C19_restricted_search_misses : forall (region : R -> R -> Prop) (P F : R -> R) (wt f M : R),
+  (forall c w, region c w -> (interval_mass F c w <= M)%R) -> (M < f)%R ->
+  forall c w, region c w ->
+    ((f - M) * (f - M) <= interval_cost P F wt f c w)%R /\ (0 < (f - M) * (f - M))%R /\
+    (f - M <= f - interval_mass F c w)%R.
+Proof. exact restricted_search_misses. Qed.
+
+(* the executable judgement of a returned interval (evaluated on the values observed on the
+   real estimator, every run) is sound, and complete for the enclosed probability *)
+Theorem C19_check_interval_sound : forall (wt Pa Pb Fa Fb f cost : Q) (probes : list Q) (tt tl te rt ab : Q),
+  check_interval wt Pa Pb Fa Fb f cost probes tt tl te rt ab = 0%nat ->
+  (Rabs (Q2R Fb - Q2R Fa - Q2R f) <= Q2R tl)%R /\
+  (Rabs (Q2R wt * (Q2R Pa - Q2R Pb)) <= Q2R te)%R /\
+  (hdi_cost (Q2R wt) (Q2R Pa) (Q2R Pb) (Q2R Fa) (Q2R Fb) (Q2R f) <= Q2R tl * Q2R tl + Q2R te * Q2R te)%R.
+Proof. exact check_interval_sound. Qed.
+
+Theorem C19_check_interval_complete_mass : forall (wt Pa Pb Fa Fb f cost : Q) (probes : list Q) (tt tl te rt ab : Q),
+  (Q2R tl < Rabs (Q2R Fb - Q2R Fa - Q2R f))%R ->
+  check_interval wt Pa Pb Fa Fb f cost probes tt tl te rt ab <> 0%nat.
+Proof. exact check_interval_complete_mass. Qed.
+
+(* non-vacuity of the restricted-search theorem: the uniform cumulative function on [0, 1],
+   widths limited to 1/2, fraction 3/4: every admissible interval misses by >= 1/4; and of
+   the judgement: an interval holding 0.9944 for f = 0.9995 whose neighbour has a quarter of
+   its cost is rejected (bit 1), but not when no neighbour is better than half its cost
+   (inside tol_loose); the same ends with mass f are accepted *)
+Example C19_restricted_example :
+  let F := fun x : R => Rmax 0 (Rmin 1 x) in
+  nondecreasing F /\ (forall x, F (x + 1 / 2) - F x <= 1 / 2)%R /\ (1 / 2 < 3 / 4)%R.
+Proof.
+  cbv zeta. split; [|split].
+  - intros x y H. unfold Rmax, Rmin. repeat destruct (Rle_dec _ _); lra.
+  - intros x. unfold Rmax, Rmin. repeat destruct (Rle_dec _ _); lra.
+  - lra.
+Qed.
+
+Example C19_check_interval_example :
+  check_interval (1 # 2) (1 # 100) (1 # 100) (28 # 10000) (9972 # 10000) (9995 # 10000)
+                 (2601 # 100000000) [7 # 1000000] (1 # 1000) (1 # 100) (1 # 100) (1 # 1000000) 0 = 2%nat /\
+  check_interval (1 # 2) (1 # 100) (1 # 100) (28 # 10000) (9972 # 10000) (9995 # 10000)
+                 (2601 # 100000000) [25 # 1000000] (1 # 1000) (1 # 100) (1 # 100) (1 # 1000000) 0 = 0%nat /\
+  check_interval (1 # 2) (1 # 100) (1 # 100) (2 # 10000) (9997 # 10000) (9995 # 10000)
+                 0 [] (1 # 1000) (1 # 100) (1 # 100) (1 # 1000000) 0 = 0%nat.
+Proof. repeat split; vm_compute; reflexivity. Qed.
+
 (* non-vacuity: a table with non-unit mass and non-zero variance; the premises of
    the covariance theorems hold; an even number of points exercises the
    last-interval correction *)
@@ -111,3 +181,9 @@ Print Assumptions C19_family_norm_affine.
 Print Assumptions C19_hdi_cost_zero_iff.
 Print Assumptions C19_hdi_cost_nonneg.
 Print Assumptions C19_hdi_cost_q_correct.
+Print Assumptions C19_hdi_cost_small_bounds.
+Print Assumptions C19_confined_interval_mass.
+Print Assumptions C19_width_limited_search_misses.
+Print Assumptions C19_restricted_search_misses.
+Print Assumptions C19_check_interval_sound.
+Print Assumptions C19_check_interval_complete_mass.
